@@ -187,15 +187,26 @@ Ltac py_lit :=
       change (py_int s) with v
   end.
 
+(* min / max of two numbers whose order lia knows *)
+Ltac zmin1 :=
+  match goal with
+  | |- context [Z.min ?a ?b] =>
+      first [ replace (Z.min a b) with a by (symmetry; apply Z.min_l; lia)
+            | replace (Z.min a b) with b by (symmetry; apply Z.min_r; lia) ]
+  | |- context [Z.max ?a ?b] =>
+      first [ replace (Z.max a b) with a by (symmetry; apply Z.max_l; lia)
+            | replace (Z.max a b) with b by (symmetry; apply Z.max_r; lia) ]
+  end.
+
 Ltac ev_step tac :=
   rewrite ?bind_unfold, ?try_unfold, ?finally_unfold;
-  cbv beta iota zeta delta -[bind try_ finally_ Z.add Z.sub Z.mul Z.opp Z.ltb Z.leb Z.eqb Z.of_nat
+  cbv beta iota zeta delta -[bind try_ finally_ Z.add Z.sub Z.mul Z.opp Z.ltb Z.leb Z.eqb Z.min Z.max Z.of_nat
                              py_int py_int_bytes z_to_dec in_i64 has_key existsb filter app sort_rows replay_loop gen
                              I64MAX I64MIN];
   cbn [filter app replay_loop];
   tac;
   try rewrite !py_int_dec by (unfold I64MAX; lia); try rewrite !py_int_bytes_dec by (unfold I64MAX; lia);
-  try rewrite !in_i64_ok by (unfold I64MAX; lia); repeat py_lit; repeat zb1.
+  try rewrite !in_i64_ok by (unfold I64MAX; lia); repeat py_lit; repeat zmin1; repeat zb1.
 Ltac ev_with tac :=
   match goal with
   | |- _ = ?r =>
